@@ -228,12 +228,49 @@ func buildShared(name string, r *rand.Rand, nv, nr int) *shared {
 				}
 				if len(parts) > 0 {
 					s.vtexts = append(s.vtexts, "vers:"+sc+"/"+strings.Join(parts, "|"))
+					if len(parts) >= 2 {
+						// the same constraints with one of them repeated and two more neighbours: de-duplication and sorting
+						// must be deterministic (map iteration order, unstable sorts on an order that is not transitive)
+						q := append(append([]string{}, parts...), parts[r.IntN(len(parts))])
+						for x := 0; x < 2; x++ {
+							if v := s.vstr[r.IntN(len(s.vstr))]; embeddable(v) {
+								q = append(q, versOps[r.IntN(6)]+v)
+							}
+						}
+						s.vtexts = append(s.vtexts, "vers:"+sc+"/"+strings.Join(q, "|"))
+					}
 				}
+			}
+		}
+	}
+	if name == "maven" && len(s.vstr) > 4 {
+		// bounds that form one of ComparableVersion's own comparison cycles (X.w-N < X-beta-N < X < X.w-N), one constraint
+		// repeated: whatever order the implementation sorts them into, it must be the same order on every call
+		for k := 0; k < 6; k++ {
+			x := pickPlain(s.vstr, r)
+			for _, q := range [][]string{{">=" + x + "-beta-1", "<" + x, ">=" + x + ".jre-7", ">=" + x + "-beta-1"}, {"<" + x + ".bar.12", ">=" + x + "-alpha-1", "<=" + x, "<" + x + ".bar.12", "!=" + x + "-sp"},
+				{">=" + x + "-sp", "<" + x + "-Final-SNAPSHOT", ">" + x, ">=" + x + "-sp"}} {
+				s.vtexts = append(s.vtexts, "vers:maven/"+strings.Join(q, "|"))
 			}
 		}
 	}
 	sort.Strings(s.vtexts)
 	return s
+}
+
+// pickPlain returns the dotted-numeric prefix of one of the strings (or "9.4").
+func pickPlain(vs []string, r *rand.Rand) string {
+	for t := 0; t < 20; t++ {
+		v := vs[r.IntN(len(vs))]
+		j := 0
+		for j < len(v) && (v[j] >= '0' && v[j] <= '9' || v[j] == '.') {
+			j++
+		}
+		if p := strings.Trim(v[:j], "."); p != "" && len(p) < 12 {
+			return p
+		}
+	}
+	return "9.4"
 }
 
 // observableDifference compares what callers can see of one shared object with a fresh parse of its text: String(),
